@@ -1,0 +1,57 @@
+package policy
+
+import (
+	"github.com/ipld/go-ipld-prime"
+	"github.com/ipld/go-ipld-prime/datamodel"
+)
+
+// equalNodes is the equality of the "==" statement: deep equality in which maps
+// are compared as unordered collections of entries. datamodel.DeepEqual visits
+// the entries of both maps pairwise in iteration order, so that {"a":1,"b":2}
+// and {"b":2,"a":1} would differ: arguments assembled in memory would then not
+// equal a policy literal that went through the (key-sorting) DAG-CBOR codec.
+func equalNodes(x, y ipld.Node) bool {
+	if x == nil || y == nil || x.Kind() != y.Kind() {
+		return safeDeepEqual(x, y)
+	}
+	switch x.Kind() {
+	case datamodel.Kind_Map:
+		if x.Length() != y.Length() {
+			return false
+		}
+		it := x.MapIterator()
+		for !it.Done() {
+			k, xv, err := it.Next()
+			if err != nil {
+				return false
+			}
+			ks, err := k.AsString()
+			if err != nil {
+				return false
+			}
+			yv, err := y.LookupByString(ks)
+			if err != nil || !equalNodes(xv, yv) {
+				return false
+			}
+		}
+		return true
+	case datamodel.Kind_List:
+		if x.Length() != y.Length() {
+			return false
+		}
+		xi, yi := x.ListIterator(), y.ListIterator()
+		for !xi.Done() && !yi.Done() {
+			_, xv, err := xi.Next()
+			if err != nil {
+				return false
+			}
+			_, yv, err := yi.Next()
+			if err != nil || !equalNodes(xv, yv) {
+				return false
+			}
+		}
+		return xi.Done() && yi.Done()
+	default:
+		return safeDeepEqual(x, y)
+	}
+}
